@@ -631,8 +631,14 @@ pub fn body(case: &Case, out: &Shared) {
     let mut st = FsState::default();
     let mut applied = 0usize;
     let mut classes: std::collections::BTreeSet<String> = Default::default();
-    for &p in &points {
+    for (pi, &p) in points.iter().enumerate() {
         if rt::is_poisoned() || out.lock().unwrap().findings.len() >= 8 {
+            break;
+        }
+        if rt::spawned_count() > 1500 {
+            // hard guard for the stack mappings of finished tasks (see checks.rs, max_points)
+            let left = (points.len() - pi) as u64;
+            with_out(out, |o| o.stats.bump("crash_points_skipped_task_budget", left));
             break;
         }
         while applied < p {
